@@ -40,7 +40,7 @@ def classify (s : OrderSite) : Option SiteClass :=
   | "cmd/internal/linker/link.go", "LinkDDPFiles", "link_objects" => some .linkArgs
   | "cmd/internal/linker/link.go", "LinkDDPFiles", "options.Dependencies.Dependencies" => some .linkArgs
   | "src/ast/annotators/const_func_param.go", "*ConstFuncParamAnnotator.VisitAssignStmt", "a.currentParams" => some .commutes
-  | "src/ast/annotators/const_func_param.go", "*ConstFuncParamAnnotator.VisitFuncCall", "a.currentParams" => some .commutes
+  | "src/ast/annotators/const_func_param.go", "*ConstFuncParamAnnotator.visitCall", "a.currentParams" => some .commutes
   | "src/ast/annotators/const_func_param.go", "*ConstFuncParamAnnotator.VisitFuncDecl", "decl.Generic.Instantiations" => some .commutes
   | "src/ast/annotators/const_func_param.go", "*ConstFuncParamAnnotator.overwriteAttachement", "a.currentParams" => some .commutes
   | "src/ast/ast.go", "*StructAlias.GetArgs", "alias.Args" => some .commutes
